@@ -12,7 +12,6 @@ import (
 	"net/url"
 	"os"
 	"path/filepath"
-	"regexp"
 	"strconv"
 	"strings"
 
@@ -127,19 +126,136 @@ func SynchronousModeFromInt(i int) (SynchronousMode, error) {
 	}
 }
 
-// BreakingPragmas are PRAGMAs that, if executed, would break the database layer.
-var BreakingPragmas = map[string]*regexp.Regexp{
-	"PRAGMA journal_mode":       regexp.MustCompile(`(?i)^\s*PRAGMA\s+(\w+\.)?journal_mode\s*=\s*`),
-	"PRAGMA wal_autocheckpoint": regexp.MustCompile(`(?i)^\s*PRAGMA\s+wal_autocheckpoint\s*=\s*`),
-	"PRAGMA wal_checkpoint":     regexp.MustCompile(`(?i)^\s*PRAGMA\s+(\w+\.)?wal_checkpoint`),
-	"PRAGMA synchronous":        regexp.MustCompile(`(?i)^\s*PRAGMA\s+(\w+\.)?synchronous\s*=\s*`),
-	"PRAGMA query_only":         regexp.MustCompile(`(?i)^\s*PRAGMA\s+(\w+\.)?query_only\s*=\s*`),
+// BreakingPragmas are the names of the PRAGMAs that, if executed, would break
+// the database layer.
+var BreakingPragmas = map[string]bool{
+	"journal_mode":       true,
+	"wal_autocheckpoint": true,
+	"wal_checkpoint":     true,
+	"synchronous":        true,
+	"query_only":         true,
 }
 
-// IsBreakingPragma returns true if the given statement is a breaking PRAGMA.
+// sqlToken is a lexical token of SQL text, as far as IsBreakingPragma cares: a
+// bare word (kind 'w', text lower-cased), a quoted name or string (kind 'q',
+// text unquoted and lower-cased), or a punctuation character (kind is that
+// character).
+type sqlToken struct {
+	kind byte
+	text string
+}
+
+func isSQLSpace(c byte) bool {
+	return c == ' ' || c == '\t' || c == '\n' || c == '\f' || c == '\r'
+}
+
+func isSQLWordByte(c byte) bool {
+	return c == '_' || c == '$' || c >= 0x80 || ('0' <= c && c <= '9') || ('a' <= c && c <= 'z') || ('A' <= c && c <= 'Z')
+}
+
+func lowerASCII(s string) string {
+	b := []byte(s)
+	for i, c := range b {
+		if 'A' <= c && c <= 'Z' {
+			b[i] = c + ('a' - 'A')
+		}
+	}
+	return string(b)
+}
+
+// sqlTokens splits SQL text into tokens the way SQLite does, dropping
+// whitespace, a byte-order mark and comments.
+func sqlTokens(s string) []sqlToken {
+	var toks []sqlToken
+	for i := 0; i < len(s); {
+		c := s[i]
+		switch {
+		case isSQLSpace(c):
+			i++
+		case strings.HasPrefix(s[i:], "\xef\xbb\xbf"):
+			i += 3
+		case strings.HasPrefix(s[i:], "--"):
+			for i < len(s) && s[i] != '\n' {
+				i++
+			}
+		case strings.HasPrefix(s[i:], "/*"):
+			if j := strings.Index(s[i+2:], "*/"); j >= 0 {
+				i += j + 4
+			} else {
+				i = len(s)
+			}
+		case c == '\'' || c == '"' || c == '`' || c == '[':
+			end := c
+			if c == '[' {
+				end = ']'
+			}
+			var text []byte
+			for i++; i < len(s); i++ {
+				if s[i] == end {
+					if end == ']' || i+1 >= len(s) || s[i+1] != end {
+						break
+					}
+					i++ // a doubled quote character stands for itself
+				}
+				text = append(text, s[i])
+			}
+			i++
+			toks = append(toks, sqlToken{'q', lowerASCII(string(text))})
+		case isSQLWordByte(c):
+			j := i
+			for j < len(s) && isSQLWordByte(s[j]) {
+				j++
+			}
+			toks = append(toks, sqlToken{'w', lowerASCII(s[i:j])})
+			i = j
+		default:
+			toks = append(toks, sqlToken{c, ""})
+			i++
+		}
+	}
+	return toks
+}
+
+// IsBreakingPragma returns true if any statement in the given SQL text is a
+// breaking PRAGMA, regardless of letter case, whitespace, comments, quoting of
+// the names, a schema prefix, assignment or call syntax, an EXPLAIN prefix, or
+// where in the text the statement is.
 func IsBreakingPragma(stmt string) bool {
-	for _, re := range BreakingPragmas {
-		if re.MatchString(stmt) {
+	toks := sqlTokens(stmt)
+	word := func(i int, w string) bool {
+		return i < len(toks) && toks[i].kind == 'w' && toks[i].text == w
+	}
+	name := func(i int) bool {
+		return i < len(toks) && (toks[i].kind == 'w' || toks[i].kind == 'q')
+	}
+	punct := func(i int, c byte) bool {
+		return i < len(toks) && toks[i].kind == c
+	}
+	for i := range toks {
+		if i > 0 && toks[i-1].kind != ';' {
+			continue
+		}
+		// At the start of a statement: [EXPLAIN [QUERY PLAN]] PRAGMA [schema .] name
+		j := i
+		if word(j, "explain") {
+			j++
+			if word(j, "query") && word(j+1, "plan") {
+				j += 2
+			}
+		}
+		if !word(j, "pragma") {
+			continue
+		}
+		j++
+		if name(j) && punct(j+1, '.') {
+			j += 2
+		}
+		if !name(j) || !BreakingPragmas[toks[j].text] {
+			continue
+		}
+		// A checkpoint runs in every form; the others only change a setting
+		// when given a value, as "= value" or "(value)".
+		if toks[j].text == "wal_checkpoint" || punct(j+1, '=') || punct(j+1, '(') {
 			return true
 		}
 	}
